@@ -49,6 +49,8 @@ def _scalar(v):
 
 
 def request(case):
+    if case["fn"] == "fill_at":
+        return dumps([Sym("fill_at"), case["args"]["w"], case["args"]["s"]])
     fn, a, w = case["fn"], case["args"], case_width(case)
     if fn == "emit_param_str":
         p = a["p"]
@@ -79,6 +81,9 @@ def run_direct(case):
     """call the real code in THIS process (its width is whatever this process imported)"""
     m = impl()
     fn, a = case["fn"], copy.deepcopy(case["args"])
+    if fn == "fill_at":
+        import textwrap
+        return dumps(outcome(lambda: textwrap.fill(a["s"], width=a["w"]), lambda s: s))
     if fn == "emit_param_str":
         p = a["p"]
 
@@ -251,6 +256,39 @@ def spoil_ir(rng, ir):
     return ir, tags
 
 
+FILL_WORDS = ["a", "I", "of", "the", "data", "model", "x,", "(see", "docs)", "e.g.,", "0.5", "-1", "-", "--", "x-", "-y",
+              "3-4", "1e-07", "well-known", "pre-trained", "a--b", "end.", "`code`", "[a,", "b]", ":param", "x:", "```int```",
+              "https://example.com/a/b", "dataset_name", "it's", "\"hi\"", "UPPER", "non-negative", "e-mail", "a-", "-b-"]
+
+
+SAFE_FILL_WORDS = [x for x in FILL_WORDS if x not in ("well-known", "pre-trained", "a--b", "non-negative", "e-mail", "--",
+                                                       "1e-07", "a-", "-b-", "x-", "3-4", "https://example.com/a/b")]
+
+
+def gen_fill(rng):
+    """text for textwrap.fill itself: words of assorted shapes, blanks of assorted kinds, every width.
+    70% inside the fragment of Fill.v (no tab, no breakable hyphen, width >= longest word), 30% anywhere"""
+    safe = rng.random() < 0.7
+    n = rng.randint(0, 14)
+    parts = []
+    for i in range(n):
+        parts.append(rng.choice(SAFE_FILL_WORDS if safe else FILL_WORDS) if rng.random() < 0.7 else G.word(rng))
+        r = rng.random()
+        blanks = ["  ", "\n", "\n    ", "   ", " \n", "\n\n"] + ([] if safe else ["\t"])
+        parts.append(" " if r < 0.75 else rng.choice(blanks))
+    s = "".join(parts)
+    r = rng.random()
+    if r < 0.15:
+        s = rng.choice([" ", "  ", "\n", "    "]) + s
+    elif r < 0.5:
+        s = s.rstrip()
+    w = rng.choice([1, 2, 3, 5, 8, 10, 12, 15, 20, 25, 30, 40, 60, 79, 80, 100, 120]) if rng.random() < 0.8 else rng.randint(1, 130)
+    if safe:
+        w = max([w] + [len(x) for x in s.split()] + [len(x) for x in __import__("re").findall(r"[ \n]+", s)])
+    tags = ["fill-width:%s" % ("<10" if w < 10 else "<40" if w < 40 else ">=40"), "fill:" + ("fragment" if safe else "any")]
+    return {"fam": NAME, "fn": "fill_at", "width": None, "tags": tags, "args": {"s": s, "w": w}}
+
+
 def _flags(rng):
     return rng.random() < 0.6, rng.random() < 0.6
 
@@ -302,6 +340,9 @@ def gen(rng, n, tier="quick"):
     """about 55% in-process (default width), the rest spread over the child widths"""
     cases = []
     for i in range(n):
+        if rng.random() < 0.12:
+            cases.append(gen_fill(rng))
+            continue
         width = None if rng.random() < 0.55 else rng.choice(CHILD_WIDTHS)
         c = gen_one(rng, width, tier)
         # JSON-able: OrderedDicts become dicts (insertion order is kept by json)
@@ -311,6 +352,8 @@ def gen(rng, n, tier="quick"):
 
 def nontrivial(case):
     a = case["args"]
+    if case["fn"] == "fill_at":
+        return len(a["s"]) > a["w"]
     if case["fn"] == "emit_param_str":
         return len(a["p"]) >= 2
     ir = a["ir"]
